@@ -1,7 +1,7 @@
 (* Extraction of the executable model and specification functions to OCaml.
    Only ExtrOcamlBasic's directives are used (bool, option, unit, list, prod, sumbool, sumor,
    andb, orb); numbers and bytes stay the extracted inductive types. *)
-From MsqlVerif Require Import Model.Server Model.ErrTab Model.Tls.
+From MsqlVerif Require Import Model.Server Model.ErrTab Model.Tls Spec.Frame Spec.Client.
 Require Import ExtrOcamlBasic.
 Extraction Language OCaml.
 Set Extraction KeepSingleton.
@@ -13,7 +13,16 @@ Definition model_to_bin := to_bin.
 Definition model_is_null := is_null.
 Definition model_init_st := init_st.
 Definition model_run_on_tls := run_on_tls.
+(* the specification's client, run over what the REAL code emitted *)
+Definition spec_deframe := deframe.
+Definition spec_response := c_response.
+Definition spec_prepare_ok := c_prepare_ok.
+Definition spec_ok := c_ok.
+Definition spec_err := c_err.
+Definition spec_greeting := c_greeting.
+Definition spec_coldef := c_coldef.
+Definition spec_eof := c_eof.
 
 Extraction "model.ml"
-  model_run_on model_run_on_tls model_errtab model_to_text model_to_bin model_is_null model_init_st
+  model_run_on model_run_on_tls spec_deframe spec_response spec_prepare_ok spec_ok spec_err spec_greeting spec_coldef spec_eof model_errtab model_to_text model_to_bin model_is_null model_init_st
   b_of_N N_of_b dec_Z N.of_nat N.to_nat N.mul N.add Z.of_N Z.opp.
